@@ -159,6 +159,11 @@ class Executor:
         except Exception as e:      # any exception is "the call raised"; the class is logged
             c["ok"] = 0
             c["exc"] = type(e).__name__
+        # read-only queries in between, some abandoned half way, on every map: stuttering steps
+        self._nq = getattr(self, "_nq", 0) + 1
+        if self._nq % 3:
+            for mm in self.maps:
+                common.poke_map(mm, self._nq)
         return c, {"views": self.views()}
 
 
@@ -426,6 +431,87 @@ def twin_history(r):
     return steps
 
 
+def retry_history(r):
+    """A window refused for an ADDRESS reason stays open: it then takes more names (directly or by absorbing an
+    anonymous sub-window) and is offered again, to the same parent or to a second one.  The parent must judge the
+    names the window has NOW."""
+    ex = Executor()
+    steps = []
+
+    def do(c):
+        i, o = ex.apply(c)
+        steps.append({"i": i, "o": o})
+        return i
+    do({"call": "new", "aw": 6, "dw": 8, "al": 0})        # 1: parent
+    do({"call": "new", "aw": 3, "dw": 8, "al": 0})        # 2: window, refused once
+    do({"call": "new", "aw": r.choice([1, 2]), "dw": 8, "al": 0})        # 3: sub-window absorbed by 2 after the refusal
+    do({"call": "new", "aw": 6, "dw": 8, "al": 0})        # 4: second parent
+    rid = [0]
+
+    def add(m, name, addr=-1):
+        rid[0] += 1
+        return do({"call": "add_resource", "m": m, "res": rid[0], "name": tag(name), "size": 1, "addr": addr,
+                   "alignment": -1, "bad": "none"})
+    clash = r.choice([("b",), ("b", 0), ("grp", "b"), (3,)])
+    late = r.choice([clash, clash, clash[:1] + ("deeper",) if len(clash) == 1 else clash[:1], ("other",)])
+    add(1, clash)
+    add(4, clash)
+    add(2, ("a",))
+    if r.random() < 0.5:
+        do({"call": "lookup"})
+    # refused: overlaps the parent's first resource, or lies outside the parent
+    do({"call": "add_window", "m": 1, "w": 2, "name": [], "addr": r.choice([0, 60]), "sparse": "none", "bad": "none"})
+    how = r.choice(["absorb", "absorb", "direct"])
+    if how == "absorb":
+        add(3, late)
+        do({"call": "add_window", "m": 2, "w": 3, "name": [], "addr": -1, "sparse": "none", "bad": "none"})
+    else:
+        add(2, late)
+    for m in r.sample([1, 4], 2):
+        do({"call": "add_window", "m": m, "w": 2, "name": tag(r.choice([None, None, ("w",)])), "addr": r.choice([-1, 8]),
+            "sparse": "none", "bad": "none"})
+    add(1, ("z",))
+    do({"call": "lookup"})
+    return steps
+
+
+def shared_window_history(r):
+    """One frozen map as an anonymous window of TWO parents (each the first thing its parent receives, or not):
+    what one parent takes afterwards is none of the other's, nor the window's, business."""
+    ex = Executor()
+    steps = []
+
+    def do(c):
+        i, o = ex.apply(c)
+        steps.append({"i": i, "o": o})
+        return i
+    do({"call": "new", "aw": 6, "dw": 8, "al": 0})        # 1, 2: parents
+    do({"call": "new", "aw": 6, "dw": 8, "al": 0})
+    do({"call": "new", "aw": 3, "dw": 8, "al": 0})        # 3: the shared window
+    rid = [0]
+
+    def add(m, name):
+        rid[0] += 1
+        return do({"call": "add_resource", "m": m, "res": rid[0], "name": tag(name), "size": 1, "addr": -1,
+                   "alignment": -1, "bad": "none"})
+    g = r.choice(["g", "grp", 0])
+    add(3, ("a",))
+    add(3, (g, "a"))
+    first = r.random() < 0.6
+    for m in (1, 2):
+        if not first or (m == 2 and r.random() < 0.3):
+            add(m, ("pre", m))
+        do({"call": "add_window", "m": m, "w": 3, "name": [], "addr": -1, "sparse": "none", "bad": "none"})
+    later = [("x",), (g, "b"), (g, "b", 1), ("a",), (g, "a")]          # the last two clash with the window, in both
+    r.shuffle(later)
+    for nm_ in later:
+        for m in r.sample([1, 2], 2):
+            add(m, nm_)
+    add(3, ("late",))                                                   # frozen: refused
+    do({"call": "lookup"})
+    return steps
+
+
 def huge_history(r):
     """The top 2^aw addresses of a 64-bit map (recorded relative to the base): the same rules must hold where
     addresses no longer fit a double or a machine word.  Starts with an explicitly placed anchor so that the
@@ -477,6 +563,10 @@ def _hist_job(job):
             return {"cfg": {"seed": seed, "huge": 1}, "steps": huge_history(rng("mm-huge", seed))}
         if seed % 8 == 1:
             return {"cfg": {"seed": seed, "twins": 1}, "steps": twin_history(rng("mm-twin", seed))}
+        if seed % 16 in (4, 14):
+            return {"cfg": {"seed": seed, "shared": 1}, "steps": shared_window_history(rng("mm-shared", seed))}
+        if seed % 16 in (2, 12):
+            return {"cfg": {"seed": seed, "retry": 1}, "steps": retry_history(rng("mm-retry", seed))}
         if seed % 4 == 3:
             return {"cfg": {"seed": seed, "structured": 1}, "steps": structured_history(rng("mm-struct", seed))}
         return {"cfg": {"seed": seed}, "steps": random_history(rng("mm-hist", seed), length)}
